@@ -9,6 +9,7 @@ import (
 	. "verifharness/kobj"
 
 	"github.com/boz/kcache/filter"
+	"github.com/boz/kcache/nsname"
 	metav1 "k8s.io/apimachinery/pkg/apis/meta/v1"
 )
 
@@ -396,8 +397,81 @@ func runC18(c *Ctx) {
 		}
 		acceptMatrix(c, rt, randObjs(rng, 150, 800000))
 	}
+	nsnameText(c)
 	c.Rep.Stats["terms"] = len(terms)
 	c.Rep.Stats["objects"] = len(objs)
+}
+
+// nsnameText: nsname.Parse and NSName.String against NSName.v (runner command
+// 21).  Every string of length <= 5 over {a, b, /} and seeded longer ones over
+// a wider alphabet (multi-byte runes, NUL, a backslash) are parsed; the
+// implementation's verdict, the two halves and the String of the result are
+// compared with ns_parse / ns_string byte for byte; and String followed by
+// Parse is run on every pair of halves over the same alphabet, slashes included.
+func nsnameText(c *Ctx) {
+	bytesOf := func(s string) enc.T {
+		var l []enc.T
+		for i := 0; i < len(s); i++ {
+			l = append(l, enc.I(int(s[i])))
+		}
+		return enc.L(l...)
+	}
+	var inputs []string
+	var gen func(prefix string, n int)
+	gen = func(prefix string, n int) {
+		inputs = append(inputs, prefix)
+		if n == 0 {
+			return
+		}
+		for _, ch := range []string{"a", "b", "/"} {
+			gen(prefix+ch, n-1)
+		}
+	}
+	gen("", 5)
+	rng := rand.New(rand.NewSource(c.Seed*31 + 181))
+	alphabet := []string{"a", "/", "/", "é", "\x00", "\\", "kube-system", ".", " ", "//"}
+	n := 300
+	if !c.Quick() {
+		n = 6000
+	}
+	for i := 0; i < n; i++ {
+		s := ""
+		for k := rng.Intn(7); k > 0; k-- {
+			s += alphabet[rng.Intn(len(alphabet))]
+		}
+		inputs = append(inputs, s)
+	}
+	accepted := 0
+	for _, in := range inputs {
+		id, err := nsname.Parse(in)
+		ok := 0
+		if err == nil {
+			ok = 1
+			accepted++
+		} else if err != nsname.ErrInvalidID {
+			c.Violation("", "nsname.Parse fails with something else than ErrInvalidID", map[string]interface{}{"input": in, "error": err.Error()})
+		}
+		c.Case(enc.L(enc.I(21), bytesOf(in), enc.I(ok), bytesOf(id.Namespace), bytesOf(id.Name), bytesOf(id.String())))
+		if ok == 1 {
+			c.DistinctCase("nsname-" + in)
+		}
+	}
+	// String, then Parse: (22 ns name string ok ns' name')
+	halves := []string{"", "a", "ab", "/", "a/", "/a", "a/b", "é", "kube-system"}
+	for _, a := range halves {
+		for _, b := range halves {
+			str := nsname.New(a, b).String()
+			back, err := nsname.Parse(str)
+			ok := 0
+			if err == nil {
+				ok = 1
+			}
+			c.Case(enc.L(enc.I(22), bytesOf(a), bytesOf(b), bytesOf(str), enc.I(ok), bytesOf(back.Namespace), bytesOf(back.Name)))
+		}
+	}
+	c.Rep.Stats["nsname_inputs"] = len(inputs)
+	c.Rep.Stats["nsname_accepted"] = accepted
+	c.Rep.Rule += " PLUS nsname.Parse / NSName.String: every string of length <= 5 over {a, b, /} and 300 (6000) seeded strings over an alphabet with multi-byte runes, NUL, backslash and double slashes, byte for byte against NSName.ns_parse / ns_string (runner command 21); String then Parse over all pairs of nine halves, slashes included (command 22)."
 }
 
 // ---------------------------------------------------------------------
